@@ -46,7 +46,7 @@ type genOutcome struct {
 
 func partsNonEmpty(ps []proto.Part) bool {
 	for _, p := range ps {
-		if p.Text != "" || p.Ref != "" || p.Value != "" || p.Tmpl != "" || p.DocRef != "" || p.Results || p.Bulk > 0 || p.Locate != "" {
+		if p.Text != "" || p.Ref != "" || p.Value != "" || p.Tmpl != "" || p.DocRef != "" || p.Results || p.Bulk > 0 || p.Locate != "" || p.Names {
 			return true
 		}
 	}
@@ -69,7 +69,7 @@ func outcome(g *proto.GenScript, pkg string, events []proto.Event) genOutcome {
 			case p.State == "inst-count":
 				o.Parts = append(o.Parts, proto.Part{Text: p.Text + fmt.Sprint(seen)})
 			default:
-				if p.Value != "" || p.Results || p.Bulk > 0 || p.Locate != "" {
+				if p.Value != "" || p.Results || p.Bulk > 0 || p.Locate != "" || p.Names {
 					o.HasValue = true // text the driver does not predict
 				}
 				o.Parts = append(o.Parts, p)
@@ -451,6 +451,20 @@ func (x *Exec) checkRun(rec *StepRecord) {
 		x.checkCalls(rec, oc.pi, oc.g, oc.o, success)
 	}
 
+	x.nameForms = map[string]map[string]string{}
+	defer func() {
+		// F7: what a type is called in generated text does not depend on the file it is said in (on what
+		// that file said before): one spelling per (way of referring to it, type) across the files of a run
+		for _, key := range sortedKeys(x.nameForms) {
+			if forms := x.nameForms[key]; len(forms) > 1 {
+				var d []string
+				for _, f := range sortedKeys(forms) {
+					d = append(d, fmt.Sprintf("%q in %s", f, forms[f]))
+				}
+				x.violate("C01", "F7", "same-type-named-differently-across-files", key+": "+strings.Join(d, ", "), nil)
+			}
+		}
+	}()
 	if success {
 		// ---- T2 T3 file set, F1-F6 contents
 		for _, pi := range processed {
